@@ -684,6 +684,51 @@ def classify_overwrite(case):
 
 
 
+
+# ---------------------------------------------------------------------------------------
+# pickle streams: a handle is a position in a stream.  Two objects written one after the other into
+# one open handle (optionally behind a header the caller wrote) are read back, in order, from where
+# the caller positioned the handle.
+
+@st.composite
+def stream_case(draw):
+    case = draw(overwrite_case())
+    case['fmt'] = 'pkl'
+    case['target'] = draw(st.sampled_from(['bytesio', 'file']))
+    case['header'] = draw(st.sampled_from([0, 0, 7, 64]))
+    return case
+
+
+def check_stream(case):
+    from rsatoolbox.rdm import load_rdm
+    from rsatoolbox.data.dataset import load_dataset
+    from rsatoolbox.inference import load_results
+    kind = case['kind']
+    loader = {'rdms': load_rdm, 'dataset': load_dataset, 'result': load_results}[kind]
+    first = _build_any(kind, case['old'])
+    second = _build_any(kind, case['new'])
+    d = tempfile.mkdtemp(prefix='vf_c16_stream_')
+    h = io.BytesIO() if case['target'] == 'bytesio' else open(os.path.join(d, 'stream.bin'), 'w+b')
+    try:
+        head = bytes(range(33, 33 + case['header']))
+        h.write(head)
+        for obj, nm in ((first, 'first'), (second, 'second')):
+            core.lib(obj.save, h, file_type='pkl', on_error='violation', sig='stream:save-raises')
+        h.flush()
+        h.seek(len(head))
+        for obj, spec, nm in ((first, case['old'], 'first'), (second, case['new'], 'second')):
+            tag = 'pickle stream (%s, %d-byte header): %s object' % (case['target'], len(head), nm)
+            lo = core.lib(loader, h, file_type='pkl', on_error='violation', sig='stream:load-raises')
+            _cmp_any(kind, lo, obj, spec, tag)
+    finally:
+        h.close()
+        shutil.rmtree(d, ignore_errors=True)
+
+
+def classify_stream(case):
+    return (['kind:' + case['kind'], 'target:' + case['target'], 'header:%d' % case['header']], True)
+
+
 # ---------------------------------------------------------------------------------------
 # exhaustive grid: one fixed object of every kind x format x target x extension x flags
 
@@ -792,6 +837,9 @@ SUBCHECKS = [
              thorough=3000,
              doc='existing target x overwrite flag: ValueError + unchanged bytes for HDF5 paths, '
                  'exactly the new object after overwrite=True (path or open file, both formats)'),
+    SubCheck('pkl_stream', stream_case(), check_stream, classify_stream, quick=120, thorough=1500,
+             doc='two objects pickled one after the other into one open handle (optionally behind a '
+                 'caller-written header) are read back in order from the position the caller set'),
     core.Enumeration('grid', enumerate_grid, check_grid, classify_grid,
                      doc='exhaustive: one fixed object of each of the four kinds (RDMs, Dataset, '
                          'TemporalDataset, Result) x file type x extension x target (path, BytesIO, open '
